@@ -2,6 +2,7 @@ import TextxVerif.Proofs.LinkLocLoop
 import TextxVerif.Proofs.PosDict
 import TextxVerif.Proofs.PosDictObj
 import TextxVerif.Props.C06
+import TextxVerif.Props.C28
 /-!
 # C34 — editor-support positions identify references and objects exactly
 
@@ -62,6 +63,24 @@ theorem C34_refs_sorted_exact (files : List FileSpec) (ans : Nat → Nat → Ans
       refine ⟨r, hr, hE, ?_⟩
       obtain ⟨_, _, _, rfl⟩ := hE
       rfl
+
+/-- **… and the condition "loading succeeds" is not a fuel artefact.**  With `enoughFuel files` rounds
+the resolution loop always comes to an end (`C28_total`: it neither runs out of fuel nor fails in an
+unmodelled way): either loading reports an error (a syntax error in a file, or a reference no provider
+resolves — then there is no model and nothing to list), or it succeeds and every file's
+`_pos_crossref_list` is as `C34_refs_sorted_exact` says. -/
+theorem C34_refs_total (files : List FileSpec) (ans : Nat → Nat → Answer)
+    (htext : ∀ f ∈ files, f.refs.Pairwise (fun a b => a.pos < b.pos)) :
+    (∃ e, run files ans (enoughFuel files) = .err e) ∨
+    ∃ ms, run files ans (enoughFuel files) = .ok ms ∧
+      All2 (fun f m => All2 (EntryOf ans) f.refs m.posList ∧
+                       m.posList.map (·.refStart) = f.refs.map (·.pos)) files ms := by
+  have ht := C28_total files ans
+  cases hr : run files ans (enoughFuel files) with
+  | ok ms => exact Or.inr ⟨ms, rfl, C34_refs_sorted_exact files ans _ ms htext hr⟩
+  | err e => exact Or.inl ⟨e, rfl⟩
+  | crash => exact absurd hr (ht.1 _)
+  | fuel => exact absurd hr ht.2
 
 /-- The pinned constructions violate the property: with the end offset taken from
 the *target's* name (`p.abc` resolving to the object named `abc`, 3 characters)
